@@ -107,7 +107,7 @@ def _native_replay_extract(sc: Scratch, script_path: Path, log_path: Path) -> tu
     if "mod verif_replay_c15x" not in src:
         target.write_text(src + "\n" + (XDIR / "replay_native.rs").read_text())
     env = env_offline()
-    env["VERIF_C15X_SCRIPT"] = str(script_path)
+    env["VERIF_C15X_SCRIPT"] = str(Path(script_path).resolve())
     env["CARGO_TARGET_DIR"] = str(CACHE / "target-native-pavex")
     p = subprocess.run(["cargo", "test", "--offline", "-p", "pavex", "--lib", "verif_replay_c15x", "--", "--nocapture", "--test-threads", "1"],
                        cwd=sc.repo, env=env, stdout=subprocess.PIPE, stderr=subprocess.STDOUT, text=True)
